@@ -70,6 +70,76 @@ inline std::string run_forked(const std::function<std::string()> &f, unsigned ti
     return out;
 }
 
+// true when f() runs to completion in a forked child (no signal, no timeout); used to skip
+// inputs on which an unrelated part of the library crashes
+inline bool survives(const std::function<void()> &f, unsigned timeout_s = 10)
+{
+    fflush(stdout);
+    pid_t pid = fork();
+    if (pid == 0) {
+        alarm(timeout_s);
+        struct rlimit rl;
+        rl.rlim_cur = rl.rlim_max = 0;
+        setrlimit(RLIMIT_CORE, &rl);
+        try {
+            f();
+        } catch (...) {
+        }
+        _exit(0);
+    }
+    int status = 0;
+    waitpid(pid, &status, 0);
+    return WIFEXITED(status);
+}
+
+// which of the n items can be processed without killing the process: items are run in order in
+// a forked child that reports progress through a pipe; after a crash at item k the scan resumes
+// at k+1 in a fresh child.  Typically one fork for the whole batch.
+inline std::vector<bool> survivors(size_t n, const std::function<void(size_t)> &f,
+                                   unsigned timeout_s = 20)
+{
+    std::vector<bool> ok(n, true);
+    size_t start = 0;
+    while (start < n) {
+        int fd[2];
+        if (pipe(fd) != 0)
+            break;
+        fflush(stdout);
+        pid_t pid = fork();
+        if (pid == 0) {
+            close(fd[0]);
+            struct rlimit rl;
+            rl.rlim_cur = rl.rlim_max = 0;
+            setrlimit(RLIMIT_CORE, &rl);
+            for (size_t i = start; i < n; i++) {
+                alarm(timeout_s);
+                try {
+                    f(i);
+                } catch (...) {
+                }
+                char c = 1;
+                if (write(fd[1], &c, 1) != 1)
+                    break;
+            }
+            _exit(0);
+        }
+        close(fd[1]);
+        size_t done = 0;
+        char buf[256];
+        ssize_t r;
+        while ((r = read(fd[0], buf, sizeof buf)) > 0)
+            done += (size_t)r;
+        close(fd[0]);
+        int status = 0;
+        waitpid(pid, &status, 0);
+        if (start + done >= n)
+            break;
+        ok[start + done] = false; // the item being processed when the child died
+        start = start + done + 1;
+    }
+    return ok;
+}
+
 // exception classes as numbered in coq/Base/Prelude.v (EXN_*); use inside catch blocks:
 //   try { ... } catch (...) { return verif::exn_name(); }
 inline std::string exn_name();
